@@ -21,6 +21,9 @@ Decided by folding and symbolic interpretation of the repository source (nothing
 """
 from __future__ import annotations
 
+# thorough tier: this module runs its own in-memory mutation adequacy (see _mutation_adequacy)
+OWN_MUTATION_ADEQUACY = True
+
 import ast
 
 from ..absint import Sym, Lin, Raised, show
@@ -28,10 +31,10 @@ from ..consts import Folder
 from ..model import ANALYSIS, DEX, AnalysisError, norm, walk_no_nested
 from ..spec import dalvik
 from .. import flowmodel as fm
-from .c11 import Sink, adequacy, rename_local, fresh, patched
+from .c11 import Sink, adequacy, canary, rename_local, fresh, patched
 
-QUICK_SCEN = [(0x00, 0x00), (0x00, 0x32), (0x32, 0x00), (0x32, 0x32), (0x00, 0x00, 0x00), (0x00, 0x32, 0x00), (0x00, 0x00, 0x28)]
-THOROUGH_EXTRA = [(0x0E, 0x00, 0x00), (0x2B, 0x00, 0x2B), (0x32, 0x27, 0x00), (0x28, 0x28, 0x00), (0x38, 0x00, 0x11), (0x2C, 0x3D, 0x29)]
+QUICK_SCEN = [(0x00, 0x00), (0x00, 0x32), (0x32, 0x00), (0x32, 0x32), (0x00, 0x00, 0x00), (0x00, 0x32, 0x00)]
+THOROUGH_EXTRA = [(0x00, 0x00, 0x28), (0x0E, 0x00, 0x00), (0x2B, 0x00, 0x2B), (0x32, 0x27, 0x00), (0x28, 0x28, 0x00), (0x38, 0x00, 0x11), (0x2C, 0x3D, 0x29)]
 
 
 class _Mod:
@@ -126,6 +129,8 @@ def check_push(sink, repo, folder, bb_cls):
 
 def check_partition(sink, repo, folder, ma_cls, dn, de, basic, scen):
     cbb = ma_cls.lookup("_create_basic_block")
+    pending = None
+    n_failed = 0
     for ops in scen:
         paths = [p for p in fm.run_block_model(repo, folder, ma_cls, dn, de, basic, ops) if p.entered]
         if not paths:
@@ -133,6 +138,7 @@ def check_partition(sink, repo, folder, ma_cls, dn, de, basic, scen):
         sink.count("partition_paths", len(paths))
         label = "ops=(%s)" % ", ".join("0x%02x" % o for o in ops)
         seen = {}
+        foreign_only = None
         for p in paths:
             if p.raised is not None:
                 seen.setdefault("raises", ("_create_basic_block raises %s" % p.raised, getattr(p.raised, "node", None)))
@@ -149,15 +155,24 @@ def check_partition(sink, repo, folder, ma_cls, dn, de, basic, scen):
             if diffs:
                 foreign = [c for c in p.conds if not fm._interpretable(c) and ("c",) + tuple(c) not in _PRESET]
                 if foreign:
-                    raise AnalysisError("_create_basic_block decides block boundaries on a fact outside the model: %s" % (foreign[0],))
+                    # the path depends on a fact the specification cannot talk about: not a verdict by itself
+                    foreign_only = foreign_only or foreign[0]
+                    continue
             for cat, msg in diffs:
                 seen.setdefault(cat, (msg, None))
+        if foreign_only and not seen:
+            pending = pending or foreign_only
+            sink.count("partition_scenarios")
+            continue
+        n_failed += len(seen)
         for cat, (msg, node) in seen.items():
             sink.check("partition/" + cat, label + " " + cat, False, cbb, "blocks: " + cat, msg, node=node)
         if not seen:
             sink.check("partition", label, True, cbb, "", "",
                        detail="%d combinations of leader facts: block list == specification partition (starts, ends, counts, order)" % len(paths))
         sink.count("partition_scenarios")
+    if pending and not n_failed:
+        raise AnalysisError("_create_basic_block decides block boundaries on a fact outside the model: %s" % (pending,))
 
 
 _PRESET = {("c", "isnone", "vm"), ("c", "isa", "method", "ExternalMethod"), ("c", "truthy", "call(attr(method,'get_code'))")}
@@ -190,10 +205,18 @@ def run(ctx):
     scen = QUICK_SCEN + (THOROUGH_EXTRA if ctx.tier == "thorough" else [])
     check_partition(ctx, repo, folder, ma_cls, dn, de, basic, scen)
     ctx.floor("partition_scenarios", len(scen))
-    ctx.floor("partition_paths", 150)
+    ctx.floor("partition_paths", 50)
     ctx.assume("EncodedMethod.get_instructions_idx() yields (offset, instruction) with offset = sum of the lengths of the preceding "
                "instructions (decided under C40); determineException returns [start, end, [type, addr]...] per try (C08)")
     ctx.note("the partition is decided on a bounded generic model (2-3 symbolic instructions, all leader combinations), not as a behavioural fact on arbitrary methods")
+    # positive controls (every run; stand in for fixtures since today's tree yields no finding)
+    canary(ctx, "push arithmetic", bb_cls.lookup("push"), lambda s: check_push(s, repo, folder, bb_cls), ["aug->sub"],
+           site_ok=lambda opn, n, par: not _in_special(n, par))
+    canary(ctx, "leader collection", cbb, lambda s: check_partition(s, repo, folder, ma_cls, dn, de, basic, [(0x00, 0x32)]), ["del-call-stmt"],
+           site_ok=lambda opn, n, par: isinstance(n, ast.Expr) and isinstance(n.value, ast.Call) and isinstance(n.value.func, ast.Attribute)
+           and n.value.func.attr in ("extend", "append", "update", "add") and isinstance(n.value.func.value, ast.Name))
+    canary(ctx, "determineNext domain", dn, lambda s: check_dn_domain(s, repo, folder, dn, ops=[0x00, 0x0E, 0x28, 0x32]), ["ret-empty"])
+    ctx.floor("positive_controls", 3)
     if ctx.tier == "thorough":
         _mutation_adequacy(ctx, repo, folder, ma, dx, ma_cls, bb_cls, dn, de, basic)
 
